@@ -2,6 +2,7 @@ package walletchaintx
 
 import (
 	"fmt"
+	"runtime"
 	"sort"
 	"strings"
 	"sync/atomic"
@@ -212,12 +213,27 @@ func (r *runner) progress() [5]int64 {
 		int64(len(r.fc.calls)), int64(r.fc.waiting)}
 }
 
-// waitUntil polls cond; it gives up (false) when nothing at all has moved for `quiet`, or after 15 s.  On the unchanged
-// tree every wait of opResync ends through cond; the quiet period only matters when an expected event never comes.
+// waitUntil polls cond; it gives up (false) when nothing at all has moved for a quiet period, or at the hard limit.  On
+// the unchanged tree every wait of opResync ends through cond; the quiet period only matters when an expected event
+// never comes — so it is generous (a starved machine can keep every goroutine of the wallet off the CPU for seconds
+// while this loop still polls) and only falls back to the short `quiet` once a few waits of this process have ended
+// that way, i.e. once the run is decided (notes/FLAKES.md).
 func (r *runner) waitUntil(cond func() bool, quiet time.Duration) bool {
+	hard := 20 * time.Second
+	if atomic.LoadInt32(&quietTimeouts) < 3 {
+		quiet, hard = generousQuiet, 2*generousQuiet
+	}
+	return r.waitUntilQ(cond, quiet, hard)
+}
+
+const generousQuiet = 30 * time.Second
+
+var quietTimeouts int32
+
+func (r *runner) waitUntilQ(cond func() bool, quiet, hard time.Duration) bool {
 	// "quiet" = no progress during `quiet` of wall-clock time AND during 500 polls of this loop (a process that was
 	// not scheduled at all makes no progress but does not poll either)
-	deadline := time.Now().Add(20 * time.Second)
+	deadline := time.Now().Add(hard)
 	last, lastMove, idle := r.progress(), time.Now(), 0
 	for !cond() {
 		now := time.Now()
@@ -226,11 +242,65 @@ func (r *runner) waitUntil(cond func() bool, quiet time.Duration) bool {
 		}
 		idle++
 		if now.After(deadline) || (idle > 500 && now.Sub(lastMove) > quiet) {
-			return cond()
+			if cond() {
+				return true
+			}
+			atomic.AddInt32(&quietTimeouts, 1)
+			return false
 		}
 		time.Sleep(100 * time.Microsecond)
 	}
 	return true
+}
+
+// goroutineBlocks returns the runtime's goroutine dump, one block per goroutine (header line "goroutine N [state…]:"
+// followed by the frames and the "created by" line).
+func goroutineBlocks() []string {
+	buf := make([]byte, 1<<16)
+	for {
+		n := runtime.Stack(buf, true)
+		if n < len(buf) {
+			buf = buf[:n]
+			break
+		}
+		buf = make([]byte, 2*len(buf))
+	}
+	return strings.Split(string(buf), "\n\n")
+}
+
+// rebroadcastsOver waits until every re-broadcast started by a finished rescan has run to its end: the wallet's
+// rescanProgressHandler (which logs "Finished rescan" and then executes `go w.resendUnminedTxs()`) is parked in its
+// select again, and no goroutine is inside resendUnminedTxs any more.  From then on the backend's call log is final —
+// a state of the real wallet, not a guess from elapsed time.  The limit is a backstop (never reached on the unchanged
+// tree); the callers still apply their count-based waits afterwards for trees in which these function names changed.
+func rebroadcastsOver() bool {
+	const handler = "github.com/btcsuite/btcwallet/wallet.(*Wallet).rescanProgressHandler"
+	deadline := time.Now().Add(generousQuiet)
+	for {
+		idle, busy := false, false
+		for _, g := range goroutineBlocks() {
+			nl := strings.IndexByte(g, '\n')
+			if nl < 0 {
+				continue
+			}
+			head, body := g[:nl], g[nl:]
+			switch {
+			case strings.Contains(body, "resendUnminedTxs") || strings.Contains(body, "created by "+handler):
+				// a re-broadcast goroutine: running, blocked in the backend, or created and not yet started (then its
+				// only frame is the go statement's wrapper, recognised by its creator)
+				busy = true
+			case strings.Contains(body, handler+"("):
+				idle = strings.Contains(head, "[select")
+			}
+		}
+		if idle && !busy {
+			return true
+		}
+		if time.Now().After(deadline) {
+			return false
+		}
+		time.Sleep(200 * time.Microsecond)
+	}
 }
 
 func (r *runner) startRescan() error {
@@ -367,14 +437,25 @@ func (r *runner) opResync(kind string, kv map[string]string) (string, string) {
 	if !r.waitUntil(func() bool { return r.fc.allDelivered() && finishedRounds() >= rounds }, quiet) {
 		return "harness-error rescan did not finish", ""
 	}
-	if held >= 0 {
-		r.waitUntil(func() bool { return atomic.LoadInt64(&theLogger.rebroadcasts)-start >= held*nExpected }, quiet)
-		r.waitUntil(func() bool { return atomic.LoadInt64(&theLogger.rebroadcasts)-start >= rounds*nExpected }, 300*time.Millisecond)
-	} else {
-		r.waitUntil(func() bool { return atomic.LoadInt64(&theLogger.rebroadcasts)-start >= rounds*nExpected }, quiet)
+	// every re-broadcast goroutine has returned: nothing more is offered, and none of them is left to read the store
+	// while a LATER op changes it (with an empty list the goroutine does nothing observable — unless it is so late
+	// that it sees the next op's transaction)
+	settled := rebroadcastsOver()
+	short := func(cond func() bool, q time.Duration) {
+		if settled && atomic.LoadInt32(&quietTimeouts) < 3 {
+			// the call log is final: either the count is there or it never will be
+			if !cond() {
+				r.waitUntilQ(cond, q, 20*time.Second)
+			}
+			return
+		}
+		r.waitUntil(cond, q)
 	}
-	if nExpected == 0 {
-		time.Sleep(2 * time.Millisecond) // the goroutine only reads an empty list
+	if held >= 0 {
+		short(func() bool { return atomic.LoadInt64(&theLogger.rebroadcasts)-start >= held*nExpected }, quiet)
+		r.waitUntilQ(func() bool { return atomic.LoadInt64(&theLogger.rebroadcasts)-start >= rounds*nExpected }, 300*time.Millisecond, 20*time.Second)
+	} else {
+		short(func() bool { return atomic.LoadInt64(&theLogger.rebroadcasts)-start >= rounds*nExpected }, quiet)
 	}
 	r.fc.notify()
 	r.pending = 0
